@@ -18,7 +18,7 @@
    function T of the section (None = TransformationError).  No proofs here. *)
 From Coq Require Import ZArith List Bool.
 Import ListNotations.
-From MP Require Import Grid.
+From MP Require Import Base Grid.
 Local Open Scope Z_scope.
 
 (* ------------------------------------------------------------------ SRS *)
@@ -200,7 +200,8 @@ Record wms_source := mkWms {
   w_pref : list (srs * list srs);         (* PreferredSrcSRS.target_proj (global preferred_src_proj) *)
   w_fmts : list fmt;                      (* supported_formats (plain str, already file_ext'ed) *)
   w_imgfmt : option fmt;                  (* image_opts.format (None = unset / empty) *)
-  w_cov : option (bbox * srs);            (* BBOXCoverage *)
+  w_cov : option (bbox * srs);            (* coverage.bbox / coverage.srs (= the extent of the source) *)
+  w_geom : option Z;                      (* None: BBOXCoverage; Some g: GeomCoverage with geometry g (bounds = bbox) *)
   w_rr : option res_range;
   w_fwd : list Z                          (* forward_req_params, lower-cased *)
 }.
@@ -213,7 +214,7 @@ Inductive outcome :=
 
 (* ---------------------------------------------------------------- tile sources *)
 Record tile_source := mkTile {
-  t_grid : grid; t_srs : srs; t_cov : option (bbox * srs); t_rr : option res_range }.
+  t_grid : grid; t_srs : srs; t_cov : option (bbox * srs); t_geom : option Z; t_rr : option res_range }.
 
 Inductive tile_outcome :=
 | TBlank
@@ -227,6 +228,14 @@ Section Upstream.
   Variable T : srs -> srs -> bbox -> option bbox.
   (* deg_to_m(1) = kn / kd *)
   Variable kn kd : Z.
+  (* shapely: prepared_geom.intersects / .contains of geometry g for a bbox given in the coverage SRS *)
+  Variable GI GC : Z -> bbox -> bool.
+
+  (* coverage.intersects / coverage.contains for a bbox already in the coverage SRS *)
+  Definition cov_intersects (geom : option Z) (cb b : bbox) : bool :=
+    match geom with None => bbox_intersects cb b | Some g => GI g b end.
+  Definition cov_contains (geom : option Z) (cb b : bbox) : bool :=
+    match geom with None => bbox_contains cb b | Some g => GC g b end.
 
   (* srs.transform_bbox_to unless the SRS are equal (BBOXCoverage._bbox_in_coverage_srs, MapExtent.bbox_for) *)
   Definition to_srs (from to : srs) (b : bbox) : option bbox :=
@@ -281,7 +290,7 @@ Section Upstream.
           | Some (cb, cs) =>
             match to_srs s cs sb with
             | None => Err 1
-            | Some b => if negb (bbox_contains cb b) then sub_query src cb cs sq f
+            | Some b => if negb (cov_contains (w_geom src) cb b) then sub_query src cb cs sq f
                         else Request (mk_req src sq f)
             end
           | None => Request (mk_req src sq f)
@@ -326,10 +335,46 @@ Section Upstream.
       | Some (cb, cs) =>
         match to_srs (q_srs q) cs (q_bbox q) with
         | None => Err 1
-        | Some b => if negb (bbox_intersects cb b) then Blank else get_map_inner src q
+        | Some b => if negb (cov_intersects (w_geom src) cb b) then Blank else get_map_inner src q
         end
       | None => get_map_inner src q
       end.
+
+  (* ---------------------------------------------------------------- combined sources *)
+  (* SupportedSRS.__eq__ (list of SRS compared with _SRS.__eq__), list of plain format strings, coverage __eq__
+     (a BBOXCoverage never equals a GeomCoverage; geometries are equal when they have the same identifier) *)
+  Definition cov_eqb (a b : wms_source) : bool :=
+    match w_cov a, w_cov b with
+    | None, None => true
+    | Some (ca, sa), Some (cb, sb) =>
+      srs_eq sa sb && bbox_eqb ca cb &&
+      match w_geom a, w_geom b with
+      | None, None => true
+      | Some g, Some g' => g =? g'
+      | _, _ => false
+      end
+    | _, _ => false
+    end.
+  Definition dim_eqb (a b : dim) : bool := (d_key a =? d_key b) && (d_lower a =? d_lower b) && (d_val a =? d_val b).
+
+  (* WMSSource._is_compatible(other, query); static_ok: the conditions that do not concern this property (same
+     upstream URL, no opacity, same transparent colour, other source not opaque) *)
+  Definition compatible (static_ok : bool) (a b : wms_source) (q : query) : bool :=
+    static_ok &&
+    negb (rr_blocks (w_rr a) q) && negb (rr_blocks (w_rr b) q) &&
+    list_eqb srs_eq (w_srs a) (w_srs b) &&
+    list_eqb (fun x y => f_id x =? f_id y) (w_fmts a) (w_fmts b) &&
+    cov_eqb a b &&
+    list_eqb dim_eqb (dims_for_params (w_fwd a) (q_dims q)) (dims_for_params (w_fwd b) (q_dims q)).
+
+  (* WMSSource.combined_layer: the source that stands for both (its client asks for the layers of both) *)
+  Definition combined (a : wms_source) : wms_source :=
+    mkWms (w_srs a) (w_pref a) (w_fmts a) (w_imgfmt a) (w_cov a) (w_geom a) None (w_fwd a).
+
+  (* service.wms.combined_layers([a, b], query) followed by get_map of every resulting layer *)
+  Definition render_pair (static_ok : bool) (a b : wms_source) (q : query) : list outcome :=
+    if compatible static_ok a b q then [wms_get_map (combined a) q]
+    else [wms_get_map a q; wms_get_map b q].
 
   (* TiledSource.get_map *)
   Definition tiled_get_map (ts : tile_source) (q : query) : tile_outcome :=
@@ -357,7 +402,7 @@ Section Upstream.
       | Some (cb, cs) =>
         match to_srs (q_srs q) cs (q_bbox q) with
         | None => TErr 7
-        | Some b => if negb (bbox_intersects cb b) then TBlank else go
+        | Some b => if negb (cov_intersects (t_geom ts) cb b) then TBlank else go
         end
       | None => go
       end.
@@ -409,3 +454,19 @@ Fixpoint tlookup (t : ttable) (a b : Z) (x : bbox) : option bbox :=
   | (a', b', x', r) :: rest => if (a =? a') && (b =? b') && bbox_eqb x x' then r else tlookup rest a b x
   end.
 Definition T_of (t : ttable) (a b : srs) (x : bbox) : option bbox := tlookup t (s_code a) (s_code b) x.
+
+(* lookup tables used as GI / GC in the correspondence: (geometry, bbox in the coverage SRS) -> shapely's answer *)
+Definition gtable := list (Z * bbox * bool).
+Fixpoint glookup (t : gtable) (g : Z) (x : bbox) : bool :=
+  match t with
+  | [] => false
+  | (g', x', r) :: rest => if (g =? g') && bbox_eqb x x' then r else glookup rest g x
+  end.
+
+(* comparison of the outcomes of service.wms.combined_layers + get_map with render_pair *)
+Definition pair_obs_eqb (ta tb tab : params) (fixed : list (Z * Z)) (o : list outcome) (x : list wms_obs) : bool :=
+  match o, x with
+  | [o1], [x1] => wms_obs_eqb tab fixed o1 x1
+  | [o1; o2], [x1; x2] => wms_obs_eqb ta fixed o1 x1 && wms_obs_eqb tb fixed o2 x2
+  | _, _ => false
+  end.
